@@ -41,6 +41,8 @@ func runScenario(name string, alloc bool, sub uint64, size int) {
 	} else if name == "random-mixed-bits" {
 		genesisBits = heavyBits
 		body = func(s *scen) { s.mixed = true; genRandom(s, size) }
+	} else if name == "siblings" {
+		body = func(s *scen) { genSiblings(s, size) }
 	} else if c := corpusByName(name); c != nil {
 		body, opts, genesisBits = c.run, c.opts, c.genesisBits
 	} else {
@@ -67,7 +69,7 @@ func runScenario(name string, alloc bool, sub uint64, size int) {
 			f.Close()
 		}
 	}
-	if !s.dead && (name == "random" || name == "random-mixed-bits") {
+	if !s.dead && (name == "random" || name == "random-mixed-bits" || name == "siblings") {
 		r.Sample(map[string]interface{}{"scenario": name, "alloc": alloc, "subseed": sub, "blocks": len(s.blocks), "steps": s.step, "last_ops": tail(s.ops, 6)})
 	}
 }
